@@ -26,11 +26,11 @@ CHECKS = {
             "Trusted: the harness's observation of contexts (Err() of the most recently issued context per position). The runtime part (SPI contexts on election/sync/shutdown) is added by the runtime checks when built.",
             "DESIGN.md 5 C15"),
     "C18": ("model_checking",
-            "TLC: Leader.tla round-robin law for sizes 4..64 + TLC validation (BigNat modulo) of the real leader function tabulated over 64-bit views",
+            "TLC: Leader.tla round-robin law for sizes 4..64 + TLC validation (BigNat modulo) of the real leader function and of the real leader predicate tabulated over 64-bit views",
             "The leader function is a pure function of (view, committee); TLC checks the round-robin law of the specification for every "
             "size 4..64 and validates every recorded call of the real function (dense 0..4n, powers of two +-1, neighbourhoods of 2^31, "
-            "2^32, 2^63, 2^64-1, random 64-bit views; runs of n consecutive views including across 2^63 and the 2^64 wrap) against v mod n.",
-            "Trusted: VerifLeaderOf accessor (calls the unexported function the term uses), BigNat.tla. All correct nodes compute the same leader because the function is deterministic in (view, ordered committee); behaviour-level acceptance by view is exercised by the cluster checks.",
+            "2^32, 2^63, 2^64-1, random 64-bit views; runs of n consecutive views including across 2^63 and the 2^64 wrap) against v mod n. Three sites are tabulated per (n, view): the package-level function, the leader a term computes (VIEW_CHANGE destination, proof validation) and the set of members the term's isLeader predicate (applied to senders of PREPREPARE/PREPARE/NEW_VIEW) recognises - it must be exactly {v mod n}.",
+            "Trusted: VerifLeaderOf / VerifLeaderOfTerm / VerifIsLeader accessors (call the unexported functions the term uses, on a term holding only the committee), BigNat.tla. All correct nodes compute the same leader because the function is deterministic in (view, ordered committee); behaviour-level acceptance by view is exercised by the cluster checks.",
             "DESIGN.md 5 C18"),
     "C19": ("model_checking",
             "TLC: Timer.tla trigger state machine model checked (safety + liveness) + TLC validation of traces of the real TimerBasedElectionTrigger (Trace_Timer.tla) + TLC validation of recorded CalcTimeout values (Timeout.tla/BigNat)",
@@ -48,7 +48,7 @@ CHECKS = {
     "C09": ("model_checking", 'TLC trace validation (Trace_Cluster.tla over LHNode.tla/LHMessages.tla) of executions of N real nodes under a random adversarial scheduler and directed attack schedules; per-property step formulas', "Step formulas on every VIEW_CHANGE and NEW_VIEW a real node emits: a prepared node's vote carries a valid proof of exactly its prepared view, the stored proposal's hash and block; a NEW_VIEW embeds exactly the stored votes and re-proposes the block of the highest proof (fresh proposal only if no vote has a proof).", 'Trusted: the harness (HMAC keyring as ground truth for signatures, projection of messages/state, fake SPIs), the verif-tagged gate hook that steps the real WorkerLoop.Run one iteration at a time; coverage is sampled (random adversarial schedules on committees of 4..7 with weights, Byzantine weight <= f, plus directed schedules), not exhaustive. Design-level model checking of LHNode.tla composed with an adversary is added by the MC configs when present.', "DESIGN.md 5 C09"),
     "C10": ("model_checking", 'TLC trace validation (Trace_Cluster.tla over LHNode.tla/LHMessages.tla) of executions of N real nodes under a random adversarial scheduler and directed attack schedules; per-property step formulas', "History formulas over each node's sent stream: one proposal / PREPARE / COMMIT hash per (height, view), PREPARE only for the stored proposal and never as leader, COMMIT only with a prepared certificate or commit quorum in the node's storage at that moment, VIEW_CHANGE views strictly increasing, nothing proposed/prepared below the current view.", 'Trusted: the harness (HMAC keyring as ground truth for signatures, projection of messages/state, fake SPIs), the verif-tagged gate hook that steps the real WorkerLoop.Run one iteration at a time; coverage is sampled (random adversarial schedules on committees of 4..7 with weights, Byzantine weight <= f, plus directed schedules), not exhaustive. Design-level model checking of LHNode.tla composed with an adversary is added by the MC configs when present.', "DESIGN.md 5 C10"),
     "C11": ("model_checking", 'TLC trace validation (Trace_Cluster.tla over LHNode.tla/LHMessages.tla) of executions of N real nodes under a random adversarial scheduler and directed attack schedules; per-property step formulas', 'Whenever the schedule delivers a genuine message of a correct node to a correct peer that satisfies the stated precondition (same height, view not higher, no proposal yet, addressed leader...), TLC requires the effect (adoption / vote stored / PREPARE or COMMIT stored). Adversary templates poison producers (outsider PREPARE in proofs, cross-typed headers, stripped blocks).', 'Trusted: the harness (HMAC keyring as ground truth for signatures, projection of messages/state, fake SPIs), the verif-tagged gate hook that steps the real WorkerLoop.Run one iteration at a time; coverage is sampled (random adversarial schedules on committees of 4..7 with weights, Byzantine weight <= f, plus directed schedules), not exhaustive. Design-level model checking of LHNode.tla composed with an adversary is added by the MC configs when present.', "DESIGN.md 5 C11"),
-    "C12": ("model_checking", 'TLC trace validation (Trace_Cluster.tla over LHNode.tla/LHMessages.tla) of executions of N real nodes under a random adversarial scheduler and directed attack schedules; per-property step formulas', 'Cluster part: garbage, truncated, bit-flipped content and well-formed messages with extreme views/heights (2^31, 2^32, 2^63, 2^64-1), empty ids etc. are injected at random points of runs of real nodes; TLC requires that no step panics, that unparseable content changes nothing, and the rest of the run still conforms (and commits). Runtime part (main loop, API entry points, recovery) is added by the runtime checks when built.', 'Trusted: the harness (HMAC keyring as ground truth for signatures, projection of messages/state, fake SPIs), the verif-tagged gate hook that steps the real WorkerLoop.Run one iteration at a time; coverage is sampled (random adversarial schedules on committees of 4..7 with weights, Byzantine weight <= f, plus directed schedules), not exhaustive. Design-level model checking of LHNode.tla composed with an adversary is added by the MC configs when present.', "DESIGN.md 5 C12"),
+    "C12": ("model_checking", 'TLC trace validation (Trace_Cluster.tla over LHNode.tla/LHMessages.tla) of executions of N real nodes under a random adversarial scheduler and directed attack schedules; per-property step formulas', 'Cluster part: garbage, truncated, bit-flipped content and well-formed messages with extreme views/heights (2^31, 2^32, 2^63, 2^64-1), empty ids etc. are injected at random points of runs of real nodes; TLC requires that no step panics, that unparseable content changes nothing, and the rest of the run still conforms (and commits). Runtime part (Trace_Runtime.tla on the real MainLoop/WorkerLoop): no loop restart after a recovered panic, HandleConsensusMessage never blocks - also when more messages than the worker inbox holds arrive while the worker sits in a consumer call - and the node still commits afterwards; ValidateBlockConsensus and GetMemberIdsFromBlockProof on built, mutated, truncated and random proofs never panic (Trace_BlockProof.tla).', 'Trusted: the harness (HMAC keyring as ground truth for signatures, projection of messages/state, fake SPIs), the verif-tagged gate hook that steps the real WorkerLoop.Run one iteration at a time; coverage is sampled (random adversarial schedules on committees of 4..7 with weights, Byzantine weight <= f, plus directed schedules), not exhaustive. Design-level model checking of LHNode.tla composed with an adversary is added by the MC configs when present.', "DESIGN.md 5 C12"),
     "C17": ("model_checking",
             "TLC: Filter.tla complete state graph with delivery history + TLC validation of tree traces of the real RawMessageFilter (all operation sequences up to a depth, random ones) + in-situ check on real WorkerLoops (Trace_Cluster c17 tag)",
             "Filter.tla models the height filter, the one-height future cache and the worker's re-entrant drain (a delivery may commit and start the next round inside the drain); TLC checks own-height-only, eligibility, at-most-once and FIFO on its complete state graph (heights 0..3, 4 messages quick; 0..4, 5 messages thorough). The real RawMessageFilter + state.State are driven through every operation sequence up to depth 3 (quick) / 4 (thorough) and random sequences with a handler that commits on demand; TLC judges every operation. In situ: every Store* call of every real node in the cluster runs must be for the height of the term that made it.",
@@ -56,17 +56,17 @@ CHECKS = {
             "DESIGN.md 5 C17"),
     "C02": ("model_checking",
             "TLC validation (Trace_BlockProof.tla / BlockProof.tla) of calls of the real ValidateBlockConsensus and GetMemberIdsFromBlockProof on systematically built and malformed proofs",
-            "BlockProof.tla states when a (block, proof) pair is acceptable in strict and soft mode. The harness builds real proof bytes for every signer subset of five weighted committees with every field deviated one at a time and in random combinations (signer status other type/view/hash/instance/height/forged, duplicates, outsiders, header type/instance/height/hash, seed ok/other previous proof/absent/forged, block matching/other hash/other height/nil) plus truncations, bit flips, random and empty bytes; TLC checks accepted => valid on the harness's own parse (ground-truth signatures) of the very bytes passed in, and that neither entry point panics.",
+            "BlockProof.tla states when a (block, proof) pair is acceptable in strict and soft mode. The harness builds real proof bytes for every signer subset of seven weighted committees (two with zero-weight members, one weightless) with every field deviated one at a time and in random combinations (signer status other type/view/hash/instance/height/forged, duplicates, outsiders, header type/instance/height/hash, seed ok/other previous proof/absent/forged, block matching/other hash/other height/nil) plus truncations, bit flips, random and empty bytes; TLC checks accepted => valid on the harness's own parse (ground-truth signatures) of the very bytes passed in, and that neither entry point panics.",
             "Trusted: harness keyring and parse (protocol readers) for ground truth; the property is one-directional (valid => accepted is only reported as drift).",
             "DESIGN.md 5 C02"),
     "C13": ("model_checking", 'TLC: Runtime.tla (main loop, worker loop, channels, contexts, timer, blocking SPI calls) model checked exhaustively incl. liveness + TLC validation (Trace_Runtime.tla) of event traces of the real MainLoop/WorkerLoop under a randomised gating driver',
-            "Runtime.tla: commit-callback heights and new-round heights strictly increase, (height, view) never decreases with view reset on height increase, rounds after a commit are above it - invariants / action properties checked on the complete state graph (2 heights x 2 views x 2 syncs quick; 2x3x3 thorough, 1.2 M states). Real runtime: the same requirements evaluated by TLC on every event of recorded runs (failing commit callbacks, syncs with older/equal/newer heights, elections, traffic in random order), State() observed by a concurrent sampler.",
+            "Runtime.tla: commit-callback heights and new-round heights strictly increase, (height, view) never decreases with view reset on height increase, rounds after a commit are above it - invariants / action properties checked on the complete state graph (2 heights x 2 views x 2 syncs quick; 2x3x3 thorough, 1.2 M states). Real runtime: the same requirements evaluated by TLC on every event of recorded runs (failing commit callbacks, syncs with older/equal/newer heights, elections, traffic in random order), State() observed by a periodic sampler and by two goroutines reading it back to back (a (height, view) pair that never was the state shows as a step backwards), with a churn phase of heights closing in views above 0.",
             'Trusted: the harness driver and fake SPIs, the verif event hooks (add-only one-liners in mainloop.go / workerloop.go), the global sequence numbering of events; real-time bounds measured on this machine; interleavings are sampled by a randomised driver (plus worst-case consumer behaviour), not enumerated on the code - enumeration is done on Runtime.tla.', "DESIGN.md 5 C13"),
     "C14": ("model_checking", 'TLC: Runtime.tla (main loop, worker loop, channels, contexts, timer, blocking SPI calls) model checked exhaustively incl. liveness + TLC validation (Trace_Runtime.tla) of event traces of the real MainLoop/WorkerLoop under a randomised gating driver',
             "Runtime.tla: an accepted sync leads to a height above it (liveness under weak fairness), the single-slot hand-off and max-height filter are modelled literally. Real runtime: after every burst of UpdateState calls the node must get above the highest accepted block by itself even when the worker sits in an SPI call that waits for its context only; rounds entered by sync above height 1 must not act as first leader (callback flag and no view-0 proposal); UpdateState must return within the bound while the loops run.",
             'Trusted: the harness driver and fake SPIs, the verif event hooks (add-only one-liners in mainloop.go / workerloop.go), the global sequence numbering of events; real-time bounds measured on this machine; interleavings are sampled by a randomised driver (plus worst-case consumer behaviour), not enumerated on the code - enumeration is done on Runtime.tla.', "DESIGN.md 5 C14"),
     "C16": ("model_checking", 'TLC: Runtime.tla (main loop, worker loop, channels, contexts, timer, blocking SPI calls) model checked exhaustively incl. liveness + TLC validation (Trace_Runtime.tla) of event traces of the real MainLoop/WorkerLoop under a randomised gating driver',
-            "Runtime.tla: cancelled ~> both loops dead, nothing happens afterwards, timer stopped (liveness + action properties, exhaustive). Real runtime: cancellation injected at a random point of a third of the runs (idle, inside blocking SPI calls, during election/sync, with the real timer armed in half of the runs, SPI calls lingering after cancellation); WaitUntilShutdown must return within the bound, no callback/send/SPI/loop event may follow, API calls with the cancelled context must return, and no goroutine with a frame of the library may survive (5 s grace).",
+            "Runtime.tla: cancelled ~> both loops dead, nothing happens afterwards, timer stopped (liveness + action properties, exhaustive). Real runtime: cancellation injected at a random point of a third of the runs (idle, inside blocking SPI calls, during election/sync, with the real timer armed in half of the runs, SPI calls lingering after cancellation); WaitUntilShutdown must return within the bound, no callback/send/SPI/loop event may follow, API calls with the cancelled context must return, and no goroutine with a frame of the library may survive (5 s grace), the election scheduler must have been stopped; in some runs the cancellation comes from inside a consumer block whose Height() then panics on the main-loop goroutine.",
             'Trusted: the harness driver and fake SPIs, the verif event hooks (add-only one-liners in mainloop.go / workerloop.go), the global sequence numbering of events; real-time bounds measured on this machine; interleavings are sampled by a randomised driver (plus worst-case consumer behaviour), not enumerated on the code - enumeration is done on Runtime.tla.', "DESIGN.md 5 C16"),
     "C20": ("model_checking",
             "TLC: Wire.tla shape grammar enumerated + TLC validation (Trace_Wire.tla) of round trips of messages built by the real MessageFactory, compared against the factory inputs",
@@ -75,7 +75,7 @@ CHECKS = {
             "DESIGN.md 5 C20"),
     "C05": ("model_checking",
             "TLC trace validation (Trace_Cluster.tla, C05 verdict formulas + conformance with LHNode.tla) of real nodes run through an adversarial asynchronous prefix followed by a timely fair schedule on a simulated clock",
-            "Real nodes (committees of 4..7, weights, Byzantine weight <= f, crashed correct members while the live ones keep quorum weight) go through a random adversarial prefix, are brought to one height, then the harness runs the timely fair schedule: all messages among live correct nodes delivered before any timer, timers 2^view on a simulated clock with arbitrary phases, earliest deadline first, Byzantine members still injecting. TLC validates every step against the node specification and the verdict: the deciding height is committed within a bound of timer rounds and every live acceptor of the committing view's post-stabilisation proposal commits.",
+            "Real nodes (committees of 4..7, weights, Byzantine weight <= f, crashed correct members while the live ones keep quorum weight) go through a random adversarial prefix or a directed schedule of the attack library (in full or cut at a random step), are brought to one height, then the harness runs the timely fair schedule: all messages among live correct nodes delivered (global FIFO, FIFO per link, or any order, by run) before any timer, timers 2^view on a simulated clock with arbitrary phases, earliest deadline first, Byzantine members still injecting. TLC validates every step against the node specification and the verdict: the deciding height is committed within a bound of timer rounds and every live acceptor of the committing view's post-stabilisation proposal commits.",
             "Trusted: the timing model (zero message delay relative to timers), the heuristic bound standing in for 'eventually' (2x the analytic bound + 10; measured worst case 0.82 of the analytic bound), harness as for the protocol family. No TLC liveness proof of the node specification is claimed yet.",
             "DESIGN.md 5 C05"),
 }
